@@ -32,6 +32,8 @@ $(BUILD)/tbfsim_asan: $(ASAN_OBJ)
 
 $(BUILD)/plain/w_specx.o $(BUILD)/asan/w_specx.o: EXTRA = -Isim/stubs/specx
 $(BUILD)/plain/w_starpu.o $(BUILD)/asan/w_starpu.o: EXTRA = -Isim/stubs/starpu
+# function-boundary scheduling points inside the shipped floating-point kernels (core.cpp: __cyg_profile_func_enter/exit)
+$(BUILD)/plain/w_numeric.o $(BUILD)/asan/w_numeric.o: EXTRA = -finstrument-functions -finstrument-functions-exclude-file-list=/usr/,/verif/sim/,sim/
 
 $(BUILD)/plain/%.o: sim/%.cpp Makefile $(SRCSTAMP)
 	@mkdir -p $(dir $@)
